@@ -122,3 +122,51 @@ func H_C19_kv() {
 	vAssert((c < 0) == (ref < 0) && (c > 0) == (ref > 0), "CompareKV orders as bytes.Compare on keys")
 	vReach("c19-kv-done")
 }
+
+// H_C19_big: long items (lengths around 2^8 and 2^16, where length bytes become zero / 0xff) with concrete content;
+// the forked part is which lengths follow each other.
+func H_C19_big() {
+	db := New()
+	DiskBlockSize = vBound("blocksize")
+	lens := [6]int{255, 256, 257, 65535, 65536, 65537}
+	path := vFSDir() + "/c19-big"
+	w := db.newFileWriter(RawdbFile)
+	vAssert(w.Open(path) == nil, "writer opens")
+	n := vBound("items")
+	var chosen [3]int
+	var first, last [3]byte
+	for i := 0; i < n; i++ {
+		l := lens[vChoice("len", i, vBound("nlens"))]
+		chosen[i] = l
+		bs := make([]byte, l)
+		for j := range bs {
+			bs[j] = byte(j*7 + i)
+		}
+		first[i], last[i] = byte(0xff-i), byte(i) // concrete: the CRC of 64 KiB with symbolic bytes would be one huge uninterpreted term
+		bs[0], bs[l-1] = first[i], last[i]
+		vAssert(w.WriteItem(db.newItem(bs, false)) == nil, "WriteItem succeeds")
+	}
+	wsum := w.Checksum()
+	vAssert(w.Close() == nil, "writer closes")
+	r := db.newFileReader(RawdbFile, 1)
+	vAssert(r.Open(path) == nil, "reader opens")
+	for i := 0; i < n; i++ {
+		itm, err := r.ReadItem()
+		vAssert(err == nil && itm != nil, "ReadItem succeeds")
+		if itm == nil {
+			return
+		}
+		got := itm.Bytes()
+		l := chosen[i]
+		vAssert(len(got) == l, "long item length round-trips")
+		if len(got) == l {
+			vAssert(got[0] == first[i] && got[l-1] == last[i], "first and last byte round-trip")
+			vAssert(got[1] == byte(7+i) && got[l-2] == byte((l-2)*7+i), "filler round-trips")
+		}
+	}
+	itm, err := r.ReadItem()
+	vAssert(itm == nil && err == nil, "end of stream after the last item")
+	vAssert(r.Checksum() == wsum, "reader checksum equals writer checksum")
+	r.Close()
+	vReach("c19-big-done")
+}
